@@ -287,9 +287,7 @@ func (s *Swarm) merge(buf []byte) (mesh.GossipData, error) {
 	// Remember which of the incoming subscriptions are active on our side before the merge
 	wasActive := make(map[string]bool)
 	other.Subscriptions(func(ev *event.Subscription, _ event.Value) {
-		if ev.Peer != uint64(s.router.Ourself.Name) {
-			wasActive[ev.Key()] = s.state.Has(ev)
-		}
+		wasActive[ev.Key()] = s.state.Has(ev)
 	})
 
 	// Merge and get the delta
@@ -299,6 +297,12 @@ func (s *Swarm) merge(buf []byte) (mesh.GossipData, error) {
 	}
 	other.Subscriptions(func(ev *event.Subscription, v event.Value) {
 		if ev.Peer == uint64(s.router.Ourself.Name) {
+
+			// A peer which has lost sight of us removes our subscriptions from the state. If this
+			// has just happened to a subscription which is still live here, put it back.
+			if wasActive[ev.Key()] && !s.state.Has(ev) {
+				s.Notify(ev, true)
+			}
 			return // Skip ourselves
 		}
 
